@@ -8,6 +8,7 @@ import (
 	"bytes"
 	"crypto/ed25519"
 	"crypto/sha256"
+	"encoding/binary"
 	"encoding/hex"
 	"encoding/json"
 	"fmt"
@@ -26,6 +27,7 @@ import (
 	"github.com/pokt-network/pocket-core/app"
 	bam "github.com/pokt-network/pocket-core/baseapp"
 	"github.com/pokt-network/pocket-core/codec"
+	codecTypes "github.com/pokt-network/pocket-core/codec/types"
 	"github.com/pokt-network/pocket-core/crypto"
 	"github.com/pokt-network/pocket-core/crypto/keys"
 	"github.com/pokt-network/pocket-core/store"
@@ -59,6 +61,9 @@ func Addr(k crypto.PrivateKey) sdk.Address { return sdk.Address(k.PublicKey().Ad
 type AccountSpec struct {
 	Key     crypto.PrivateKey
 	Balance int64
+	// Multi, when non-nil, makes this a multisig-owned account (Key is ignored): address and stored public key
+	// are those of the multisig key.
+	Multi *crypto.PublicKeyMultiSignature
 }
 
 type NodeSpec struct {
@@ -164,6 +169,9 @@ func DefaultSpec() Spec {
 	}
 }
 
+// FaucetKey funds multisig-owned accounts right after the warm-up blocks; it ends with a zero balance.
+var FaucetKey = Key("faucet")
+
 // ResetGlobals puts every process-global the application mutates back to a known state and applies
 // the feature configuration of spec. Must be called before each node is created.
 func ResetGlobals(spec *Spec) {
@@ -203,10 +211,21 @@ func BuildGenesis(spec *Spec) app.GenesisState {
 	gs := app.GenesisState{}
 	// auth
 	authGen := authTypes.GenesisState{Params: spec.AuthParams}
+	faucet := int64(0)
 	for _, a := range spec.Accounts {
 		// genesis validation requires a public key on every genesis account
-		ba := &auth.BaseAccount{Address: Addr(a.Key), Coins: sdk.NewCoins(sdk.NewCoin(sdk.DefaultStakeDenom, sdk.NewInt(a.Balance))), PubKey: a.Key.PublicKey()}
+		var ba *auth.BaseAccount
+		if a.Multi != nil {
+			// genesis validation rejects multisig-owned accounts (PubKey() of a multisig key is nil): they are funded
+			// by a send from the faucet account in an extra block after the warm-up (see NewNodeOnDB)
+			faucet += a.Balance + DefaultFee
+			continue
+		}
+		ba = &auth.BaseAccount{Address: Addr(a.Key), Coins: sdk.NewCoins(sdk.NewCoin(sdk.DefaultStakeDenom, sdk.NewInt(a.Balance))), PubKey: a.Key.PublicKey()}
 		authGen.Accounts = append(authGen.Accounts, ba)
+	}
+	if faucet > 0 {
+		authGen.Accounts = append(authGen.Accounts, &auth.BaseAccount{Address: Addr(FaucetKey), Coins: sdk.NewCoins(sdk.NewCoin(sdk.DefaultStakeDenom, sdk.NewInt(faucet))), PubKey: FaucetKey.PublicKey()})
 	}
 	gs[auth.ModuleName] = cdc.MustMarshalJSON(authGen)
 	// nodes
@@ -257,6 +276,9 @@ func BuildGenesis(spec *Spec) app.GenesisState {
 	gs[govTypes.ModuleName] = cdc.MustMarshalJSON(gg)
 	return gs
 }
+
+// DefaultFee is the required fee of every message type.
+const DefaultFee = int64(10000)
 
 // ACLKeys are the parameter keys owned in the generated ACL (the set createDummyACL uses in the repo,
 // i.e. every parameter that exists at genesis).
@@ -381,6 +403,22 @@ func NewNodeOnDB(spec *Spec, db, blockDB, txDB dbm.DB, initChain bool) *Node {
 		n.sets[2] = n.snapshotSet()
 		for i := 0; i < spec.Warmup; i++ {
 			n.Warm = append(n.Warm, n.RunBlock(Block{DT: time.Second}))
+		}
+		var fund [][]byte
+		for i, a := range spec.Accounts {
+			if a.Multi != nil {
+				msg := &nodesTypes.MsgSend{FromAddress: Addr(FaucetKey), ToAddress: MultiAddr(*a.Multi), Amount: sdk.NewInt(a.Balance)}
+				fund = append(fund, SignTx(spec.ChainID, msg, DefaultFee, "", int64(-1000-i), FaucetKey))
+			}
+		}
+		if len(fund) > 0 {
+			r := n.RunBlock(Block{DT: time.Second, Txs: fund})
+			for _, t := range r.Txs {
+				if t.Code != 0 {
+					panic("funding of multisig account failed: " + t.Log)
+				}
+			}
+			n.Warm = append(n.Warm, r)
 		}
 	} else {
 		n.Height = n.App.LastBlockHeight()
@@ -710,6 +748,21 @@ func SignTxOpts(o TxOpts) []byte {
 	} else if o.IncludePubKey {
 		ss.PublicKey = o.Signer.PublicKey()
 	}
+	if ss.PublicKey == nil {
+		// the repo's encoder dereferences the public key; a client that omits it sends the proto form directly
+		any, err := codecTypes.NewAnyWithValue(o.Msg)
+		if err != nil {
+			panic(err)
+		}
+		ptx := authTypes.ProtoStdTx{Msg: *any, Fee: o.Fee, Signature: authTypes.ProtoStdSignature{Signature: sig}, Memo: o.Memo, Entropy: o.Entropy}
+		bz, err := ptx.Marshal()
+		if err != nil {
+			panic(err)
+		}
+		var sizeBuf [binary.MaxVarintLen64]byte
+		k := binary.PutUvarint(sizeBuf[:], uint64(len(bz)))
+		return append(sizeBuf[:k], bz...)
+	}
 	tx := authTypes.NewTx(o.Msg, o.Fee, ss, o.Memo, o.Entropy)
 	h := o.Height
 	if h == 0 {
@@ -761,4 +814,52 @@ func MustJSON(v interface{}) string {
 		return fmt.Sprintf("%v", v)
 	}
 	return string(b)
+}
+
+// ---------------------------------------------------------------------------------------------
+// multisig
+
+// MultiKey builds the multi-signature public key of the given member keys (order matters).
+func MultiKey(members []crypto.PrivateKey) crypto.PublicKeyMultiSignature {
+	pks := make([]crypto.PublicKey, len(members))
+	for i, m := range members {
+		pks[i] = m.PublicKey()
+	}
+	return crypto.PublicKeyMultiSignature{PublicKeys: pks}
+}
+
+// MultiAddr is the account address of a multisig key.
+func MultiAddr(pk crypto.PublicKeyMultiSignature) sdk.Address { return sdk.Address(pk.Address()) }
+
+// SignMultiTx builds a transaction authenticated by a multisig key: signers[i] signs at position i of the
+// signature list (signers may be fewer, more, permuted or foreign keys for adversarial variants). signMsg /
+// signFee (optional) make every member sign different content than the transaction carries.
+func SignMultiTx(chainID string, msg sdk.ProtoMsg, fee sdk.Coins, memo string, entropy int64, pub crypto.PublicKeyMultiSignature, signers []crypto.PrivateKey, signMsg sdk.ProtoMsg, signFee sdk.Coins) []byte {
+	smsg := msg
+	if signMsg != nil {
+		smsg = signMsg
+	}
+	sfee := fee
+	if signFee != nil {
+		sfee = signFee
+	}
+	sb, err := authTypes.StdSignBytes(chainID, entropy, sfee, smsg, memo)
+	if err != nil {
+		panic(err)
+	}
+	ms := crypto.MultiSignature{Sigs: make([][]byte, 0, len(signers))}
+	for _, s := range signers {
+		sig, err := s.Sign(sb)
+		if err != nil {
+			panic(err)
+		}
+		ms.Sigs = append(ms.Sigs, sig)
+	}
+	ss := authTypes.StdSignature{Signature: ms.Marshal(), PublicKey: pub}
+	tx := authTypes.NewTx(msg, fee, ss, memo, entropy)
+	bz, err := auth.DefaultTxEncoder(app.Codec())(tx, -1)
+	if err != nil {
+		panic(err)
+	}
+	return bz
 }
